@@ -136,6 +136,8 @@ type k4Conn struct {
 	bound map[uint64]bool
 	// stopped: the connection already ended and its k4stop line was emitted
 	stopped bool
+	// msize announced by the server in its last Rversion (0: none yet)
+	msize uint32
 }
 
 func fieldUint(m interface{}, path string) uint64 {
@@ -181,7 +183,17 @@ func exchange(c *k4Conn, tag uint16, m interface{}) []string {
 		return []string{"undecodable-reply"}
 	}
 	toks := []string{fmt.Sprintf("rtyp=%d", p9.VerifTypeOf(rm)), fmt.Sprintf("rtag=%d", rt), fmt.Sprintf("rlen=%d", len(rep))}
-	return append(toks, dumpMsg("r:", rm)...)
+	toks = append(toks, dumpMsg("r:", rm)...)
+	// C13 monitor: no Rread / Rreaddir longer than the msize this connection negotiated
+	if t := p9.VerifTypeOf(rm); (t == 117 || t == 41) && c.msize > 0 && uint32(len(rep)) > c.msize {
+		toks = append(toks, fmt.Sprintf("oversize-reply=%d>%d", len(rep), c.msize))
+	}
+	if p9.VerifTypeOf(rm) == 101 {
+		if ms := uint32(fieldUint(rm, "MSize")); ms != 0 {
+			c.msize = ms
+		}
+	}
+	return toks
 }
 
 // runK4: random request histories over two connections of one server, lock-step.
@@ -315,5 +327,87 @@ func runK4(r *rng, n int, adversarial bool) {
 			emit("k4stop conn=%d => handle=%s %s", c.id, st, strings.Join(calls, " "))
 		}
 		emit("k4end panics=%d => %s", be.panics, be.lifecycle())
+	}
+}
+
+func setFields(m interface{}, vals map[string]interface{}) {
+	for _, f := range p9.VerifFields(m) {
+		if v, ok := vals[f.Path]; ok {
+			switch x := v.(type) {
+			case uint64:
+				f.Val.SetUint(x)
+			case string:
+				f.Val.SetString(x)
+			case []string:
+				f.Val.Set(reflect.ValueOf(x))
+			case []byte:
+				f.Val.SetBytes(x)
+			}
+		}
+	}
+}
+
+func mk(t uint8, vals map[string]interface{}) interface{} {
+	m, _ := p9.VerifNewMsg(t)
+	setFields(m, vals)
+	return m
+}
+
+// stepK4 sends one request on c and emits its k4 line.
+func stepK4(be *backend, c *k4Conn, r *rng, t uint8, m interface{}) []string {
+	tag := uint16(r.bits(16))
+	lhs := append([]string{"k4", fmt.Sprintf("conn=%d", c.id), fmt.Sprintf("typ=%d", t), fmt.Sprintf("tag=%d", tag)}, dumpMsg("f:", m)...)
+	rhs := exchange(c, tag, m)
+	tape, calls := be.takeLog()
+	lhs = append(lhs, fmt.Sprintf("tape=%d", len(tape)))
+	lhs = append(lhs, tape...)
+	rhs = append(rhs, calls...)
+	emit("%s => %s", strings.Join(lhs, " "), strings.Join(rhs, " "))
+	return rhs
+}
+
+// runK13: reads and directory reads with counts around the negotiated msize.
+func runK13(r *rng, n int) {
+	msizes := []uint64{24, 64, 100, 4096, 8192, 65536, 1 << 20, 4 << 20, 8 << 20}
+	for i := 0; i < n; i++ {
+		ms := msizes[r.intn(len(msizes))]
+		eff := ms
+		if eff > 4<<20 {
+			eff = 4 << 20
+		}
+		be := newBackend(&rng{s: r.next()}, 0, 0, false)
+		be.fullReads = r.chance(2, 3)
+		srv := p9.NewServer(be)
+		c := &k4Conn{peer: newServerPeer(srv), id: 0, bound: map[uint64]bool{}}
+		emit("k4new cf=0 => ok")
+		stepK4(be, c, r, 100, mk(100, map[string]interface{}{"MSize": ms, "Version": "9P2000.L.Google.7"}))
+		stepK4(be, c, r, 104, mk(104, map[string]interface{}{"fid": uint64(0), "Auth.Authenticationfid": uint64(0xffffffff)}))
+		// fid 1: a regular file below the root (the backend decides the kind; retry a few names)
+		stepK4(be, c, r, 110, mk(110, map[string]interface{}{"fid": uint64(0), "newFID": uint64(1), "Names": []string{"f"}}))
+		stepK4(be, c, r, 12, mk(12, map[string]interface{}{"fid": uint64(1), "Flags": uint64(0)}))
+		// fid 2: the root directory, opened for reading
+		stepK4(be, c, r, 110, mk(110, map[string]interface{}{"fid": uint64(0), "newFID": uint64(2), "Names": []string{}}))
+		stepK4(be, c, r, 12, mk(12, map[string]interface{}{"fid": uint64(2), "Flags": uint64(0)}))
+		counts := []uint64{0, 1, eff - 12, eff - 11, eff - 10, eff - 1, eff, eff + 1, 4 << 20, 4<<20 + 1, 0xffffffff, uint64(r.intn(int(eff) + 1))}
+		for k := 0; k < 6; k++ {
+			cnt := counts[r.intn(len(counts))]
+			stepK4(be, c, r, 116, mk(116, map[string]interface{}{"fid": uint64(1), "Offset": uint64(r.intn(100)), "Count": cnt}))
+			cnt = counts[r.intn(len(counts))]
+			be.manyDirents = int(eff/30) + 2
+			if be.manyDirents > 400 {
+				be.manyDirents = 400
+			}
+			stepK4(be, c, r, 40, mk(40, map[string]interface{}{"Directory": uint64(2), "Offset": uint64(0), "Count": cnt}))
+		}
+		c.peer.c.Close()
+		ok := c.peer.waitDone(10 * time.Second)
+		_, calls := be.takeLog()
+		st := "returned"
+		if !ok {
+			st = "HUNG"
+		}
+		emit("k4stop conn=0 => handle=%s %s", st, strings.Join(calls, " "))
+		emit("k4end panics=0 => %s", be.lifecycle())
+		count(fmt.Sprintf("msize=%d", ms))
 	}
 }
